@@ -461,7 +461,12 @@ class ADEV(Pytree):
         jaxpr: Jaxpr,
         consts: list[ArrayLike],
         flat_duals: list[Dual],
+        tail: tuple[Callable[..., Any], Callable[..., Any]] | None = None,
     ):
+        # `tail = (pure_tail, dual_tail)` is what follows this jaxpr in an enclosing
+        # program (set for the branches of a cond): the continuation of a site inside
+        # a branch must run to the end of the enclosing program, not to the end of
+        # the branch.
         dual_env = Environment()
         jax_util.safe_map(dual_env.write, jaxpr.constvars, Dual.tree_pure(consts))
         jax_util.safe_map(dual_env.write, jaxpr.invars, flat_duals)
@@ -483,7 +488,8 @@ class ADEV(Pytree):
                     outs = [outs]
                 jax_util.safe_map(pure_env.write, eqn.outvars, outs)
 
-            return jax_util.safe_map(pure_env.read, jaxpr.outvars)
+            pure_outs = jax_util.safe_map(pure_env.read, jaxpr.outvars)
+            return pure_outs if tail is None else tail[0](pure_outs)
 
         # Dual evaluation.
         def eval_jaxpr_iterate_dual(
@@ -572,7 +578,19 @@ class ADEV(Pytree):
 
                     # Handle branching.
                     elif eqn.primitive is jax.lax.cond_p:
-                        # Create dual continuation for the computation after the cond_p.
+                        dual_env = dual_env.copy()
+                        pure_env = _primal_env(dual_env)
+
+                        # Continuations for the computation after the cond_p; sites
+                        # inside a branch continue into them.
+                        def _cond_pure_kont(vals: list[Any]):
+                            return eval_jaxpr_iterate_pure(
+                                eqns[eqn_idx + 1 :],
+                                pure_env,
+                                eqn.outvars,
+                                list(vals),
+                            )
+
                         def _cond_dual_kont(dual_tree: list[Any]):
                             dual_leaves = Dual.tree_pure(dual_tree)
                             return eval_jaxpr_iterate_dual(
@@ -586,7 +604,7 @@ class ADEV(Pytree):
                             map(
                                 lambda fn: ADEV.forward_mode(
                                     jaxpr_as_fun(fn),
-                                    _cond_dual_kont,
+                                    tail=(_cond_pure_kont, _cond_dual_kont),
                                 ),
                                 params["branches"],
                             )
@@ -643,12 +661,12 @@ class ADEV(Pytree):
             (out_dual,) = jax_util.safe_map(dual_env.read, jaxpr.outvars)
             if not isinstance(out_dual, Dual):
                 out_dual = Dual(out_dual, _zero_tangent_like(out_dual))
-            return out_dual
+            return out_dual if tail is None else tail[1]([out_dual])
 
         return eval_jaxpr_iterate_dual(jaxpr.eqns, dual_env, jaxpr.invars, flat_duals)
 
     @staticmethod
-    def forward_mode(f, kont=lambda v: v):
+    def forward_mode(f, kont=lambda v: v, tail=None):
         def _inner(*duals: DualTree):
             primals = Dual.tree_primal(duals)
             closed_jaxpr, (_, _, out_tree) = stage(f)(*primals)
@@ -658,7 +676,11 @@ class ADEV(Pytree):
                 jaxpr,
                 consts,
                 dual_leaves,
+                tail,
             )
+            if tail is not None:
+                # The tail already ran the rest of the enclosing program.
+                return out_duals
             out_tree_def = out_tree()
             tree_primals, tree_tangents = Dual.tree_unzip(out_duals)
             out_dual_tree = Dual.dual_tree(
